@@ -43,7 +43,7 @@ _RE_PROP = re.compile(r'Error: (?:Action|Temporal) propert(?:y|ies) (\w+)? ?(?:i
 
 def run(module, cfg, scratch, *, workers=16, timeout=900, coverage=True, dump=False,
         simulate=None, depth=None, seed=None, env=None, deadlock=None, extra=(), heap='8g',
-        dfs=False, tool_opts=''):
+        dfs=False, tool_opts='', spec_dir=None):
     """Run TLC on spec/<module>.tla with config `cfg` (path, or cfg text).
 
     scratch: directory for metadir / dump / generated cfg (caller removes it).
@@ -78,7 +78,7 @@ def run(module, cfg, scratch, *, workers=16, timeout=900, coverage=True, dump=Fa
     if deadlock is False:
         cmd += ['-deadlock']
     cmd += list(extra)
-    cmd.append(os.path.join(SPEC_DIR, module + '.tla'))
+    cmd.append(os.path.join(spec_dir or SPEC_DIR, module + '.tla'))
     e = dict(os.environ)
     if env:
         e.update({k: str(v) for k, v in env.items()})
